@@ -242,6 +242,128 @@ def c_helpers(chk):
         chk.violation(R, inst, F.where(), 'the version check against rollback is not applied to the decrypted premaster', key='%s rollback' % R)
 
 
+def key_usage_rules(chk):
+    """the key type / usages the X.509 engine reports must fit the cipher suite (client) or the way the client key is used (server).
+    Decided by constant propagation through the bytecode: key-type word per registry suite; outcome of the usage test for every
+    (key exchange class, reported type+usage) combination."""
+    from .c01 import IANA, params
+    R = 'key-type-fits-suite'
+    cv = build.const_values(['BR_ERR_WRONG_KEY_USAGE', 'BR_KEYTYPE_RSA', 'BR_KEYTYPE_EC', 'BR_KEYTYPE_KEYX', 'BR_KEYTYPE_SIGN'])
+    WKU, RSA, EC, KEYX, SIGN = (cv[k] for k in ('BR_ERR_WRONG_KEY_USAGE', 'BR_KEYTYPE_RSA', 'BR_KEYTYPE_EC', 'BR_KEYTYPE_KEYX', 'BR_KEYTYPE_SIGN'))
+    KTS = [t | u for t in (RSA, EC) for u in (KEYX, SIGN, KEYX | SIGN)]
+    # RFC 5246 7.4.2 / RFC 4492 2: what the server certificate's key must be and allow, per key exchange
+    WANT = {0: RSA | KEYX, 1: RSA | SIGN, 2: EC | SIGN, 3: EC | KEYX, 4: EC | KEYX}
+
+    def ktname(k):
+        return ('RSA' if k & 15 == RSA else 'EC') + '|' + '+'.join(n for n, b in (('KEYX', KEYX), ('SIGN', SIGN)) if k & b)
+
+    def wku_sites(P):
+        I = t0ai.Interp(P).run_entry()
+        return sorted(set((e.word, e.pc) for e in I.events if e.name == 'fail' and e.args[0].isconst() and e.args[0].c == WKU))
+
+    def outcome(I, w, pc):
+        """'fail' if the usage failure at (w, pc) is the only continuation in this run, 'pass' if it is unreachable, else 'both'"""
+        hit = any(e.name == 'fail' and e.word == w and e.pc == pc for e in I.events)
+        g = t0rules.guard_before(I.p, w, pc)
+        outs = I.branches.get((w, g.pc)) if g else None
+        if not hit:
+            return 'pass' if outs else 'unreached'
+        return 'fail' if outs is not None and len(outs) == 1 else 'both'
+
+    # ---------------- client
+    P = t0.Program('hs_client')
+    L = P.layouts
+    off_cs = L.field(P.ctxname, 'eng.session.cipher_suite')[0]
+    sites = wku_sites(P)
+    if len(sites) != 1:
+        raise AnalysisBroken('hs_client: expected one fail(BR_ERR_WRONG_KEY_USAGE) site, found %s' % (sites,))
+    WRC, pcf = sites[0]
+    W = P.words[WRC]
+    seq = list(W.ins.values())
+    g16 = next((k for k, i in enumerate(seq) if i.kind == 'native' and i.name == 'get16'), None)
+    if g16 is None or g16 + 1 >= len(seq) or seq[g16 + 1].kind != 'call':
+        raise AnalysisBroken('hs_client: word W%d does not look like read-Certificate-from-server (cipher_suite get16 <word>)' % WRC)
+    EKT = seq[g16 + 1].arg          # the word applied to the negotiated suite: suite -> expected key type
+    n = 0
+    for sid in sorted(IANA):
+        kx = params(IANA[sid])['kx']
+        I = t0ai.Interp(P)
+        I.unroll_concrete = True
+        st = t0ai.St()
+        st.stack = [t0ai.E({}, sid)]
+        out = I.run_word(EKT, st, ())
+        got = None
+        if out:
+            vals = set()
+            for o_ in out:
+                vals.add(o_.rng(o_.stack[-1]) if o_.stack else None)
+            if len(vals) == 1 and None not in vals:
+                lo, hi = next(iter(vals))
+                got = lo if lo == hi else (lo, hi)
+            else:
+                got = sorted(vals, key=str)
+        inst = 'hs_client: server key expected for %04X %s is %s' % (sid, IANA[sid], ktname(WANT[kx]))
+        n += 1
+        if got == WANT[kx]:
+            chk.ok(R, inst, P.src)
+        else:
+            chk.violation(R, inst, P.src, 'the bytecode word W%d yields %s (%s) for this suite: a certificate whose key type or usage does not fit the '
+                          'key exchange would be accepted / a fitting one refused' % (EKT, got, ktname(got) if isinstance(got, int) and got & 15 in (RSA, EC) else '?'),
+                          key='%s client expected %04X' % (R, sid))
+    # usage test: one representative suite per key exchange class, all reported (type, usage) combinations
+    reps = {}
+    for sid in sorted(IANA):
+        reps.setdefault(params(IANA[sid])['kx'], sid)
+    for kx, sid in sorted(reps.items()):
+        for kt in KTS:
+            I = t0ai.Interp(P, pins={'get-key-type-usages': kt, 'x509-end-chain': 0}, field_ranges={off_cs: (sid, sid)}, split_rets=True)
+            I.unroll_concrete = True
+            st = t0ai.St()
+            I.run_word(WRC, st, ())
+            oc = outcome(I, WRC, pcf)
+            want = 'pass' if (kt & WANT[kx]) == WANT[kx] else 'fail'
+            inst = 'hs_client: suite %04X (%s), validated server key %s => %s' % (sid, IANA[sid].split('_WITH_')[0], ktname(kt),
+                                                                                   'accepted' if want == 'pass' else 'fail(BR_ERR_WRONG_KEY_USAGE)')
+            if oc == want:
+                chk.ok(R, inst, P.src)
+            else:
+                chk.violation(R, inst, P.src, 'outcome of the usage test under these constants: %s' % oc, key='%s client %d %d' % (R, kx, kt))
+    # ---------------- server: the client key must allow signatures for CertificateVerify, and be EC with key exchange for static ECDH
+    P = t0.Program('hs_server')
+    sites = wku_sites(P)
+    if len(sites) != 2:
+        raise AnalysisBroken('hs_server: expected two fail(BR_ERR_WRONG_KEY_USAGE) sites, found %s' % (sites,))
+    cvw = set(P.words_calling_native('verify-CV-sig'))
+    for (w, pcf) in sites:
+        # does the word reach the CertificateVerify verification?
+        reach, stack = set(), [w]
+        while stack:
+            x = stack.pop()
+            if x in reach:
+                continue
+            reach.add(x)
+            stack.extend(i.arg for i in P.words[x].ins.values() if i.kind == 'call')
+        is_cv = bool(reach & cvw)
+        for kt in KTS:
+            I = t0ai.Interp(P)
+            st = t0ai.St()
+            st.stack = [t0ai.E({}, kt)]
+            I.run_word(w, st, ())
+            oc = outcome(I, w, pcf)
+            if is_cv:
+                want = 'pass' if kt & SIGN else 'fail'
+                what = 'CertificateVerify needs a signing key'
+            else:
+                want = 'pass' if (kt & 15) == EC and kt & KEYX else 'fail'
+                what = 'static ECDH needs an EC key allowing key exchange'
+            inst = 'hs_server W%d (%s): client key %s => %s' % (w, what, ktname(kt), 'accepted' if want == 'pass' else 'fail(BR_ERR_WRONG_KEY_USAGE)')
+            if oc == want:
+                chk.ok(R, inst, P.src)
+            else:
+                chk.violation(R, inst, P.src, 'outcome of the usage test under these constants: %s' % oc, key='%s server W%d %d' % (R, w, kt))
+    chk.floor('suites with a verified expected key type', n, 40)
+
+
 def run(tier):
     chk = report.Check('C03', tier,
                        'Static necessary conditions: in both handshake interpreters every store that sets bit 0 of application_data is preceded, on '
@@ -250,7 +372,8 @@ def run(tier):
                        'input-encryption switch; a non-zero ServerKeyExchange / CertificateVerify verification result becomes the handshake error; '
                        'the C helpers report every failing primitive (signature verification, hash availability, ECDH, RSA encryption) and a '
                        'failed server-side key exchange is replaced by DRBG output under a control word derived from the verdict, with the '
-                       'anti-rollback version written from client_max_version. NOT decided: that altering a byte changes the transcript hash, '
+                       'anti-rollback version written from client_max_version; the key type and usages reported by the X.509 engine must fit the '
+                       'negotiated key exchange (client: per registry suite; server: signing key for CertificateVerify, EC key-exchange key for static ECDH). NOT decided: that altering a byte changes the transcript hash, '
                        'negotiation content, certificate policy (C04).',
                        trusted=['sa/t0.py decoder and IR-derived native effects', 'sa/t0ai.py kernel-word models', 'clang/opt 14'])
     from .. import t0kernel
@@ -258,5 +381,6 @@ def run(tier):
         t0_rules(chk, key)
         t0kernel.check(chk, key)
     c_helpers(chk)
+    key_usage_rules(chk)
     chk.floor('rule instances', len(chk.obls), 30)
     return chk.finish()
